@@ -24,7 +24,7 @@ import (
 	"strconv"
 	"strings"
 	"sync"
-	"sync/atomic"
+	"time"
 
 	"github.com/DOSNetwork/core/dosnode"
 	"github.com/DOSNetwork/core/log"
@@ -87,7 +87,6 @@ func parse(line string) (rids [][]byte, evs []ev) {
 type got struct {
 	tag int
 	rid []byte
-	at  int // position of the event during which it was received
 }
 
 type inst struct {
@@ -103,6 +102,8 @@ type inst struct {
 	rids   map[int]bool // request ids it registered under
 	regs   int
 	cancAt int
+	// number of shares received when the instance was cancelled
+	gotAtCancel int
 }
 
 var quiet = doubles.NewLogger()
@@ -115,7 +116,6 @@ func run(rids [][]byte, evs []ev) map[int]*inst {
 	loopDone := make(chan struct{})
 	go func() { node.VerifQueryLoop(); close(loopDone) }()
 	insts := map[int]*inst{}
-	var pos int32
 	get := func(k int) *inst {
 		if in, ok := insts[k]; ok {
 			return in
@@ -133,9 +133,6 @@ func run(rids [][]byte, evs []ev) map[int]*inst {
 		in.gone = true
 	}
 	for i, e := range evs {
-		if e.kind != 'c' {
-			atomic.StoreInt32(&pos, int32(i))
-		}
 		switch e.kind {
 		case 'a':
 			pd.Deliver([]byte("peer"), &vss.Signature{RequestId: rids[e.j], Nonce: []byte(strconv.Itoa(i)), Content: []byte{1}, Signature: []byte{2}})
@@ -156,7 +153,7 @@ func run(rids [][]byte, evs []ev) map[int]*inst {
 						case s := <-in.reply:
 							t, _ := strconv.Atoi(string(s.Nonce))
 							in.mu.Lock()
-							in.got = append(in.got, got{tag: t, rid: s.RequestId, at: int(atomic.LoadInt32(&pos))})
+							in.got = append(in.got, got{tag: t, rid: s.RequestId})
 							in.mu.Unlock()
 						case <-in.stop:
 							return
@@ -169,15 +166,14 @@ func run(rids [][]byte, evs []ev) map[int]*inst {
 			// a cancellation is not an input of the loop: make sure the loop has finished the previous
 			// event (e.g. the flush of a registration) before it happens. The sync message is one the loop ignores.
 			pd.Deliver([]byte("peer"), &vss.PublicKey{})
-			atomic.StoreInt32(&pos, int32(i))
 			stopRecv(in) // recoverSign has returned …
 			in.cancel()  // … and handleQuery's deferred cancel ran
 			if in.cancAt < 0 {
 				in.cancAt = i
+				in.gotAtCancel = len(in.got)
 			}
 		}
 	}
-	atomic.StoreInt32(&pos, int32(len(evs)))
 	// sentinel: once the loop takes it, every scripted event has been processed completely
 	pd.Deliver([]byte("peer"), &vss.PublicKey{})
 	for _, in := range insts {
@@ -252,9 +248,9 @@ func oracle(rids [][]byte, evs []ev, insts map[int]*inst) string {
 				return fmt.Sprintf("reordered: instance %d received arrival %d after %d", k, g.tag, last)
 			}
 			last = g.tag
-			if in.cancAt >= 0 && g.at >= in.cancAt {
-				return fmt.Sprintf("after-cancel: instance %d received arrival %d during event %d, cancelled at %d", k, g.tag, g.at, in.cancAt)
-			}
+		}
+		if in.cancAt >= 0 && len(in.got) != in.gotAtCancel {
+			return fmt.Sprintf("after-cancel: instance %d received %d share(s) after its cancellation at event %d", k, len(in.got)-in.gotAtCancel, in.cancAt)
 		}
 		// exactly once per delivery: registered once, its request id registered by nobody else, never cancelled
 		if in.regs == 1 && in.cancAt < 0 {
@@ -342,9 +338,17 @@ func exec(line string) (res h.Result) {
 		}
 		return
 	}
-	insts := run(rids, evs)
-	res.Impl = render(insts)
-	res.Oracle = oracle(rids, evs, insts)
+	ch := make(chan map[int]*inst, 1)
+	go func() { ch <- run(rids, evs) }()
+	select {
+	case insts := <-ch:
+		res.Impl = render(insts)
+		res.Oracle = oracle(rids, evs, insts)
+	case <-time.After(5 * time.Second):
+		// the loop did not take an input within 5 s: it is stuck in a send nobody will receive
+		res.Impl = "stuck"
+		res.Oracle = "collector-blocked: the loop stopped consuming its inputs (a send to a cancelled or unregistered request blocks it); every other request is starved"
+	}
 	return
 }
 
@@ -402,28 +406,28 @@ func gen(tier string, rng *h.Rng, emit func(string)) {
 		maxLen   int
 	}
 	var spaces []space
-	if thorough {
+	all6 := []string{"r0.0", "c0", "r1.1", "c1", "r2.2", "c2"}
+	if thorough { // ≈1.6e6 schedules
 		spaces = []space{
 			{5, 3, []string{"r0.0", "c0", "r1.1"}, 8},
 			{5, 2, []string{"r0.0", "c0", "r1.1", "c1"}, 9},
-			{4, 3, []string{"r0.0", "c0", "r1.1", "c1", "r2.2"}, 9},
+			{4, 3, []string{"r0.0", "c0", "r1.1", "c1"}, 8},
 			{4, 2, []string{"r0.0", "c0", "r3.0", "c3", "r1.1"}, 9},
-			{3, 3, []string{"r0.0", "c0", "r1.1", "c1", "r2.2", "c2"}, 9},
+			{3, 3, all6, 7},
 			{3, 2, []string{"r0.0", "c0", "r3.0", "r1.1", "x"}, 8},
+			{0, 3, all6, 6}, {1, 3, all6, 7}, {2, 3, all6, 7},
 		}
-	} else {
+	} else { // ≈2.4e5 schedules
 		spaces = []space{
 			{4, 3, []string{"r0.0", "c0", "r1.1"}, 7},
 			{4, 2, []string{"r0.0", "c0", "r1.1", "c1"}, 8},
-			{3, 3, []string{"r0.0", "c0", "r1.1", "c1", "r2.2"}, 7},
+			{3, 3, []string{"r0.0", "c0", "r1.1", "c1", "r2.2"}, 6},
 			{3, 2, []string{"r0.0", "c0", "r3.0", "r1.1"}, 7},
-			{2, 2, []string{"r0.0", "c0", "r3.0", "c3", "r1.1", "x"}, 8},
+			{2, 2, []string{"r0.0", "c0", "r3.0", "c3", "r1.1", "x"}, 6},
+			{0, 3, all6, 6}, {1, 3, all6, 7}, {2, 3, all6, 6},
 		}
 	}
 	n := 0
-	for k := 0; k <= 2; k++ { // few arrivals, every control event
-		spaces = append(spaces, space{k, 3, []string{"r0.0", "c0", "r1.1", "c1", "r2.2", "c2"}, 8})
-	}
 	for _, sp := range spaces {
 		enumerate(sp.k, sp.nr, sp.controls, sp.maxLen, func(evs []string) {
 			emit("loop " + ridSets[n%len(ridSets)] + " " + evString(evs))
